@@ -254,6 +254,82 @@ pub mod trend_strength_index;
 pub mod true_strength_index;
 pub mod woodies_cci;
 
+/// A second reference for the indicators whose implementation contradicts its documentation in a
+/// known, recorded way: it follows the IMPLEMENTATION's reading of exactly those points. It is used only
+/// to tell the recorded discrepancy ("differs from the documented rule but equals the implementation
+/// reading") from any OTHER deviation ("differs from both"), so that a recorded finding does not hide
+/// new defects of the same indicator.
+pub fn make_alt(name: &str, cfg: &Cfg, c0: &RC) -> Option<Box<dyn IndRef>> {
+	let slots = |flip: &[usize], any: &[usize], never: &[usize]| -> Option<Box<dyn IndRef>> {
+		Some(Box::new(AltSlots { inner: make(name, cfg, c0)?, flip: flip.to_vec(), any: any.to_vec(), never: never.to_vec() }))
+	};
+	match name {
+		// values: plain volume instead of tp*volume; 0.5 whenever the negative flow is zero
+		"MoneyFlowIndex" => money_flow_index::make_alt(cfg, c0),
+		// values: close - previous close (started at the first open); signal #1 with the opposite sign
+		"RelativeVigorIndex" => relative_vigor_index::make_alt(cfg, c0),
+		// signal #0 with the pivot direction inverted
+		"AwesomeOscillator" => awesome_oscillator::make_alt(cfg, c0),
+		// signal #0: the linear position formula is applied also when the stops are in reverse order
+		"ChandeKrollStop" => chande_kroll_stop::make_alt(cfg, c0),
+		// signal as a level instead of a crossing event
+		"Envelopes" => envelopes::make_alt(cfg, c0),
+		// signal with the opposite sign of the documentation
+		"KeltnerChannel" => slots(&[0], &[], &[]),
+		// signal #0 with the opposite sign; signal #1 compares the SOURCE window with the zone (not modelled: any)
+		"TrendStrengthIndex" => slots(&[0], &[1], &[]),
+		// a level test against the last pivot prices instead of pivot events (not modelled: any)
+		"PivotReversalStrategy" => slots(&[], &[0], &[]),
+		// the signal can only fire when s1_lag == 1
+		"WoodiesCCI" => {
+			if cfg.int("s1_lag") > 1 {
+				slots(&[], &[], &[0])
+			} else {
+				slots(&[], &[0], &[])
+			}
+		}
+		_ => None,
+	}
+}
+
+/// an implementation-reading variant that differs from the documented reference only in some signal slots
+#[derive(Clone)]
+struct AltSlots {
+	inner: Box<dyn IndRef>,
+	/// slots whose sign the implementation inverts
+	flip: Vec<usize>,
+	/// slots whose implementation logic is not modelled
+	any: Vec<usize>,
+	/// slots that the implementation never fires
+	never: Vec<usize>,
+}
+impl IndRef for AltSlots {
+	fn values(&mut self, c: &RC) -> Vec<Q> {
+		self.inner.values(c)
+	}
+	fn signals(&mut self, c: &RC, own: &[f64]) -> Vec<Sig> {
+		let mut s = self.inner.signals(c, own);
+		for (i, x) in s.iter_mut().enumerate() {
+			if self.any.contains(&i) {
+				*x = Sig::Any;
+			} else if self.never.contains(&i) {
+				*x = Sig::None;
+			} else if self.flip.contains(&i) {
+				if let Sig::S(k) = *x {
+					*x = Sig::S(-k);
+				}
+			}
+		}
+		s
+	}
+	fn box_clone(&self) -> Box<dyn IndRef> {
+		Box::new(self.clone())
+	}
+	fn class(&self) -> &'static str {
+		self.inner.class()
+	}
+}
+
 /// builds the reference of the named indicator for a configuration and the first candle
 pub fn make(name: &str, cfg: &Cfg, c0: &RC) -> Option<Box<dyn IndRef>> {
 	match name {
